@@ -69,7 +69,9 @@ def run(case):
     # API routes need complete dictionaries: undeclared combinations are an explicit zero function there
     for e in eams:
         for m in labels:
-            if (e.species, m) not in declared: e.electronDensityFunction[m] = Poly([0.0])
+            if (e.species, m) not in declared:
+                if route == 'excel_fs_sparse': e.electronDensityFunction.pop(m, None)       # Python API with sparse dictionaries: the combination is simply not declared
+                else: e.electronDensityFunction[m] = Poly([0.0])
     if route == 'setfl_fs':
         out = io.StringIO(); ap.writeSetFLFinnisSinclair(nrho, drho, nr, dr, eams, pots, out); return slots_setfl_fs(out.getvalue(), labels), fns
     if route == 'setfl_fs_class':
@@ -78,7 +80,7 @@ def run(case):
         out = io.StringIO(); ap.writeTABEAMFinnisSinclair(nrho, drho, nr, dr, eams, pots, out); return slots_tabeam_fs(out.getvalue(), labels), fns
     if route == 'tabeam_fs_class':
         out = io.StringIO(); TABEAM_FinnisSinclair_EAMTabulation(*args).write(out); return slots_tabeam_fs(out.getvalue(), labels), fns
-    if route == 'excel_fs':
+    if route in ('excel_fs', 'excel_fs_sparse'):
         return slots_excel_fs(Excel_FinnisSinclair_EAMTabulation(*args).workbook, labels), fns
     raise ValueError(route)
 
@@ -91,6 +93,7 @@ def check_case(rep, case, name):
     tol = 1e-6 if 'tabeam' in case['route'] or 'DL_POLY' in case['route'] else 1e-12
     for A in labels:
         for B in labels:
+            if (A, B) not in slots and case['route'] == 'excel_fs_sparse' and (A, B) not in declared: continue      # no column for an undeclared combination: nothing stored, reads as zero
             if (A, B) not in slots: rep.dev(name, case, 'no slot for density at %s site due to %s neighbour' % (A, B), 'present'); return
             vals = slots[(A, B)]
             if len(vals) != model['nr']: rep.dev(name, case, 'slot %s<-%s has %d values' % (A, B, len(vals)), model['nr']); return
@@ -103,7 +106,7 @@ def gen_case(rng):
     m = mk_eam_model(rng, fs=True)
     labels = [e['species'] for e in m['elements']]
     allp = [(a, b) for a in labels for b in labels]
-    route = rng.choice(['setfl_fs', 'setfl_fs_class', 'tabeam_fs', 'tabeam_fs_class', 'excel_fs', 'potable:setfl_fs', 'potable:DL_POLY_EAM_fs', 'potable:excel_eam_fs'])
+    route = rng.choice(['setfl_fs', 'setfl_fs_class', 'tabeam_fs', 'tabeam_fs_class', 'excel_fs', 'excel_fs_sparse', 'potable:setfl_fs', 'potable:DL_POLY_EAM_fs', 'potable:excel_eam_fs'])
     declared = [p for p in allp if rng.random() < 0.8] or allp[:1]
     order = list(allp); rng.shuffle(order)
     if route.startswith('potable'):
